@@ -46,6 +46,11 @@ type tcase struct {
 	// Files[Split:], calls Process again.  Split == 0: the history run is the reverse order with
 	// the last file held back.
 	Split int `json:"split,omitempty"`
+	// Disk: a files-on-disk case (disk.go): per entry of Splits one run in which only the files
+	// with these indices are handed to Parse (in this order) and the others lie in a directory on
+	// the search path, where Process finds them when an import or include names them.
+	Disk   bool    `json:"disk,omitempty"`
+	Splits [][]int `json:"splits,omitempty"`
 }
 
 // history returns the load order and the split point of the history run (split 0: none).
@@ -67,6 +72,9 @@ func (c tcase) key() string {
 		sb.WriteString(f.Text)
 		sb.WriteByte(0)
 	}
+	if c.Disk {
+		fmt.Fprintf(&sb, "disk %v", c.Splits)
+	}
 	return sb.String()
 }
 
@@ -85,7 +93,7 @@ func (c tcase) order(k int) []int {
 		}
 	default:
 		h := int64(0)
-		for _, b := range []byte(c.key()) {
+		for _, b := range []byte(tcase{Files: c.Files}.key()) {
 			h = h*131 + int64(b)
 		}
 		rand.New(rand.NewSource(h+int64(k))).Shuffle(n, func(i, j int) { idx[i], idx[j] = idx[j], idx[i] })
@@ -362,6 +370,8 @@ type childReq struct {
 	Order     [][]int   `json:"order"`
 	HistOrder []int     `json:"hist_order"`
 	Split     int       `json:"split"`
+	Disk      bool      `json:"disk,omitempty"`
+	Splits    [][]int   `json:"splits,omitempty"`
 }
 
 type childAns struct {
@@ -385,6 +395,10 @@ func childMain() {
 			var rq childReq
 			if json.Unmarshal(line, &rq) != nil {
 				fmt.Fprintln(out, `{"dumps":["crash bad request"]}`)
+			} else if rq.Disk {
+				b, _ := json.Marshal(childDisk(rq))
+				out.Write(b)
+				out.WriteByte('\n')
 			} else {
 				var ans childAns
 				for k := 0; k < rq.Runs; k++ {
@@ -453,7 +467,7 @@ func (c *child) stop() {
 
 // ask runs one case in the child; a dead or silent child yields "crash …" dumps.
 func (c *child) ask(tc tcase) ([]string, bool) {
-	rq := childReq{Files: tc.Files, Runs: tc.Runs}
+	rq := childReq{Files: tc.Files, Runs: tc.Runs, Disk: tc.Disk, Splits: tc.Splits}
 	rq.HistOrder, rq.Split = tc.history()
 	for k := 0; k < tc.Runs; k++ {
 		rq.Order = append(rq.Order, tc.order(k))
@@ -1468,15 +1482,62 @@ func main() {
 	tags := map[string]int64{}
 	outcomes := map[string]int64{}
 	examined := 0
+	var nDiskRan, nDiskFound, nDiskExcl int64
+	diskExclWhy := map[string]int64{}
+	var one *lib.Driver
+	defer func() {
+		if one != nil {
+			one.Close()
+		}
+	}()
+	askOne := func(req string) (string, error) {
+		if one == nil {
+			d, err := lib.StartDriver(f.Driver)
+			if err != nil {
+				return "", err
+			}
+			one = d
+		}
+		return one.Ask(req)
+	}
 
 	// processBatch: Go (children), model and specification (driver), comparison.
 	processBatch := func(cases []tcase) {
 		goOut := runGo(cases, f.Procs)
+		// disk cases: the reference runs, the model and the specification get the texts that ended
+		// up loaded
+		eff := make([]tcase, len(cases))
+		for i, tc := range cases {
+			eff[i] = tc
+			if !tc.Disk {
+				continue
+			}
+			dumps, loaded, has, ran, found, excl, why := splitMeta(goOut[i])
+			if len(dumps) == 0 {
+				dumps = []string{"crash empty answer of the child"}
+			}
+			goOut[i] = dumps
+			if has {
+				eff[i].Files = pickFiles(tc.Files, loaded)
+			}
+			nDiskRan += int64(ran)
+			nDiskFound += int64(found)
+			nDiskExcl += int64(excl)
+			for _, w := range why {
+				if fs := strings.SplitN(w, " ", 3); len(fs) == 3 {
+					k := fs[2]
+					if j := strings.Index(k, ": "); j >= 0 {
+						k = k[:j]
+					}
+					diskExclWhy[k]++
+				}
+			}
+		}
 		var reqs []string
 		type slot struct{ m0, m1, spec int }
 		slots := make([]slot, len(cases))
 		for i, tc := range cases {
-			w, err := wireOf(tc)
+			w, err := wireOf(eff[i])
 			if err != nil {
 				res.AddDisagreement(lib.Disagreement{Kind: "crash", Input: tc, Go: err.Error(), What: "generic parser rejected a generated text", Replay: tc})
 				slots[i] = slot{-1, -1, -1}
@@ -1554,6 +1615,56 @@ func main() {
 					differ = true
 					break
 				}
+				if strings.HasPrefix(g[k], "disk-differs ") {
+					fs := strings.SplitN(g[k], " ", 4)
+					if len(fs) < 4 {
+						continue
+					}
+					var sIdx int
+					fmt.Sscanf(fs[1], "%d", &sIdx)
+					ld := splitInts(fs[2])
+					parts := strings.SplitN(fs[3], " ### ", 2)
+					ref, got := parts[0], parts[len(parts)-1]
+					why := "it is not an identity table at all (" + strings.Fields(got + " ?")[0] + ")"
+					if w, err := wireOf(tcase{Files: pickFiles(tc.Files, ld)}); err == nil {
+						if sr, ok := specRequest(w, got); ok {
+							if a, err := askOne(sr); err == nil {
+								_, why = decodeVerdict(a)
+							}
+						}
+					}
+					var handed, onPath []string
+					isH := map[int]bool{}
+					if sIdx >= 0 && sIdx < len(tc.Splits) {
+						for _, j := range tc.Splits[sIdx] {
+							isH[j] = true
+							if j >= 0 && j < len(tc.Files) {
+								handed = append(handed, tc.Files[j].Name)
+							}
+						}
+					}
+					for _, j := range ld {
+						if !isH[j] && j >= 0 && j < len(tc.Files) {
+							onPath = append(onPath, tc.Files[j].Name)
+						}
+					}
+					one := tc
+					if sIdx >= 0 && sIdx < len(tc.Splits) {
+						one.Splits = [][]int{tc.Splits[sIdx]}
+					}
+					if examined < 50 {
+						examined++
+						res.AddDisagreement(lib.Disagreement{Kind: "spec", Input: one, Replay: one, SpecVerdict: "violates",
+							Go:    []string{"all handed to Parse: " + decodeDump(ref), "files on disk:        " + decodeDump(got)},
+							Model: decodeDump(model),
+							What: fmt.Sprintf("files-on-disk run (handed to Parse: %s; read by Process from the search path: %s): spec on its result: %s; the identity lists / identityref bases / errors differ from those of fresh Modules that are handed the same loaded texts (which is what the model and the specification describe): a module that Process loads by itself is not treated as a loaded module",
+								strings.Join(handed, " "), strings.Join(onPath, " "), why)})
+					} else {
+						res.Count("disagreements_not_examined", 1)
+					}
+					differ = true
+					break
+				}
 				if strings.HasPrefix(g[k], "history-differs") || strings.HasPrefix(g[k], "toentry-first-differs") {
 					what := "ToEntry of every (sub)module before the first Process"
 					if strings.HasPrefix(g[k], "history-differs") {
@@ -1570,7 +1681,7 @@ func main() {
 			for k := 1; k < len(g) && !differ; k++ {
 				if g[k] != g[0] {
 					report(lib.Disagreement{Kind: "spec", Go: []string{decodeDump(g[0]), decodeDump(g[k])}, Model: decodeDump(model), SpecVerdict: "violates",
-						What: fmt.Sprintf("the result for one source set differs between run 0 and run %d (fresh Modules, load order %v): it is not a function of the schema", k, tc.order(k))})
+						What: fmt.Sprintf("the result for one source set differs between run 0 and run %d (fresh Modules, load order %v): it is not a function of the schema", k, eff[i].order(k))})
 					differ = true
 					break
 				}
@@ -1640,10 +1751,44 @@ func main() {
 		processBatch(cases)
 	}
 
+	// ---- files-on-disk runs: part of every set is found by Process on the search path
+	var disk []tcase
+	nDiskRandom := 4500
+	if f.Thorough() {
+		nDiskRandom = 200000
+	}
+	if *streams != "random" {
+		disk = append(disk, diskSeeds()...)
+		for k, tc := range seedCases() {
+			if v, ok := diskVariant(tc, f.Rand(7000000+k)); ok {
+				disk = append(disk, v)
+			}
+		}
+		smallD := enumerateSmall(2, 3, nil)
+		if f.Thorough() {
+			k := 0
+			smallD = enumerateSmall(3, 4, func() bool { k++; return k%4 == 0 })
+		}
+		for k, tc := range smallD {
+			if v, ok := diskVariant(tc, f.Rand(7100000+k)); ok {
+				disk = append(disk, v)
+			}
+		}
+	}
+	for i := 0; i < nDiskRandom; i++ {
+		rng := f.Rand(9000000 + i)
+		if v, ok := diskVariant(genRandom(rng, i, i%5 == 4), rng); ok {
+			disk = append(disk, v)
+		}
+	}
+	for lo := 0; lo < len(disk) && examined < 50; lo += batch {
+		processBatch(disk[lo:min(lo+batch, len(disk))])
+	}
+
 	res.Evaluations = nCases
 	res.DistinctNontrivial = nNontrivial
 	res.Exhaustive = true
-	res.Rule = "source sets = corpus + seed witnesses + COMPLETE enumeration of small graphs (all directed graphs incl. self-loops on <= 3 identities and all DAGs on 4 identities; every assignment of the identities to two roots; roots = two modules importing each other | module + included submodule; distinct names | equal names across the two modules; the two modules with different | the same own prefix; bases written with and without prefix; one identityref leaf) + seeded random schemas (1-3 modules, 0-3 submodules included directly / by another submodule / by a foreign module / by nobody / belonging to an absent module, include cycles, 1-12 identities with 0-3 bases, names from a pool with upper/lower case and punctuation, own prefixes from a pool of two (modules often share one), import prefixes independent and legal by default, rarely clashing, names reused across modules, revisions and revision-dates, cycles, dangling and unknown-prefix bases, duplicate statements, missing imports/includes, bases and identityrefs in submodules under a prefix that only the owner or a sibling submodule imports (also with the submodule binding that prefix to another module), identityref leaves, leaf-lists, unions of 1-4 identityrefs (homonymous identities of modules with one own prefix first; on leaf, leaf-list, behind typedef chains, over typedef'd members, in a used grouping) and typedef'd identityrefs) + seeded histories (such a schema, then a newer revision of a module or submodule that declares a referenced identity - also superseding an UNREVISIONED text, and often with an identity dropped or renamed -, with identityrefs of all four forms naming it). Every set: several fresh Modules under permuted load orders, all Go results must be equal, a second Process, a history on one Modules (part of the texts, Process, the rest, Process) and ToEntry-before-Process must end in the same result (identityref items name the identity OBJECT by the revision that declares it and carry the list seen through it); Go result = model result (under two map-order oracles); specification evaluated on the Go result. exhaustive refers to the small-graph space. distinct_nontrivial = distinct source sets whose Go result has an identity with a non-empty list or an identity/cycle error"
+	res.Rule = "source sets = corpus + seed witnesses + COMPLETE enumeration of small graphs (all directed graphs incl. self-loops on <= 3 identities and all DAGs on 4 identities; every assignment of the identities to two roots; roots = two modules importing each other | module + included submodule; distinct names | equal names across the two modules; the two modules with different | the same own prefix; bases written with and without prefix; one identityref leaf) + seeded random schemas (1-3 modules, 0-3 submodules included directly / by another submodule / by a foreign module / by nobody / belonging to an absent module, include cycles, 1-12 identities with 0-3 bases, names from a pool with upper/lower case and punctuation, own prefixes from a pool of two (modules often share one), import prefixes independent and legal by default, rarely clashing, names reused across modules, revisions and revision-dates, cycles, dangling and unknown-prefix bases, duplicate statements, missing imports/includes, bases and identityrefs in submodules under a prefix that only the owner or a sibling submodule imports (also with the submodule binding that prefix to another module), identityref leaves, leaf-lists, unions of 1-4 identityrefs (homonymous identities of modules with one own prefix first; on leaf, leaf-list, behind typedef chains, over typedef'd members, in a used grouping) and typedef'd identityrefs) + seeded histories (such a schema, then a newer revision of a module or submodule that declares a referenced identity - also superseding an UNREVISIONED text, and often with an identity dropped or renamed -, with identityrefs of all four forms naming it). Every set: several fresh Modules under permuted load orders, all Go results must be equal, a second Process, a history on one Modules (part of the texts, Process, the rest, Process) and ToEntry-before-Process must end in the same result (identityref items name the identity OBJECT by the revision that declares it and carry the list seen through it); Go result = model result (under two map-order oracles); specification evaluated on the Go result. + files-on-disk cases (witnesses, the seed sets, all graphs on <= 2 and all DAGs on 3 identities of the small-graph space, seeded random schemas and histories; files named <module>[@<revision>].yang; per set up to five splits between 'handed to Parse' and 'lying in a directory on the search path, found by Process through an import or include': each single module alone (only the importer / only the declaring module), the modules nobody imports (tops of the import chains), all modules without their submodules, everything but one file; a submodule is handed over only with its module, and runs in which something is read after the linking walk - the shape of finding D04-P1 - are counted and not compared): the result of every such run must equal that of fresh Modules which are handed exactly the loaded texts, which in turn is compared with model and specification as for every other set. exhaustive refers to the small-graph space. distinct_nontrivial = distinct source sets whose Go result has an identity with a non-empty list or an identity/cycle error"
 	res.Distribution["by_generator"] = tags
 	res.Distribution["go_outcomes"] = outcomes
 	res.Distribution["seed_and_corpus_cases"] = nSeed
@@ -1652,6 +1797,12 @@ func main() {
 	res.Distribution["history_cases"] = nHist
 	res.Distribution["go_runs_per_random_case"] = runs
 	res.Distribution["driver_requests"] = nReqs
+	res.Distribution["disk_cases"] = len(disk)
+	res.Distribution["disk_random_sets_tried"] = nDiskRandom
+	res.Distribution["disk_runs_compared"] = nDiskRan
+	res.Distribution["disk_runs_in_which_process_read_a_file"] = nDiskFound
+	res.Distribution["disk_runs_excluded"] = nDiskExcl
+	res.Distribution["disk_runs_excluded_why"] = diskExclWhy
 	res.Write(f.Out)
 }
 
@@ -1676,6 +1827,29 @@ func replay(f *lib.Flags) {
 		tc.Runs = 6
 	}
 	g := runGo([]tcase{tc}, 1)[0]
+	orig := tc
+	var diskNotes []string
+	if tc.Disk {
+		dumps, loaded, has, _, _, _, why := splitMeta(g)
+		var refs []string
+		for _, x := range dumps {
+			if strings.HasPrefix(x, "disk-differs ") {
+				diskNotes = append(diskNotes, x)
+			} else {
+				refs = append(refs, x)
+			}
+		}
+		g = refs
+		if len(g) == 0 {
+			g = []string{"crash empty answer of the child"}
+		}
+		if has {
+			tc.Files = pickFiles(tc.Files, loaded)
+		}
+		for _, w := range why {
+			fmt.Println(w)
+		}
+	}
 	d, err := lib.StartDriver(f.Driver)
 	if err != nil {
 		lib.Fatal("%v", err)
@@ -1689,10 +1863,39 @@ func replay(f *lib.Flags) {
 	if strings.HasPrefix(m, "linkfail") {
 		m = "linkfail"
 	}
-	for _, fl := range tc.Files {
+	for _, fl := range orig.Files {
 		fmt.Printf("--- %s\n%s", fl.Name, fl.Text)
 	}
 	bad := false
+	if orig.Disk {
+		fmt.Printf("files-on-disk case, splits (indices of the files handed to Parse; the others lie on the search path): %v\n", orig.Splits)
+		fmt.Printf("reference runs: fresh Modules, handed the loaded texts:")
+		for _, fl := range tc.Files {
+			fmt.Printf(" %s", fl.Name)
+		}
+		fmt.Println()
+		for _, x := range diskNotes {
+			fs := strings.SplitN(x, " ", 4)
+			if len(fs) < 4 {
+				continue
+			}
+			parts := strings.SplitN(fs[3], " ### ", 2)
+			var sIdx int
+			fmt.Sscanf(fs[1], "%d", &sIdx)
+			if sIdx >= 0 && sIdx < len(orig.Splits) {
+				fmt.Printf("split %v, loaded files %s:\n", orig.Splits[sIdx], fs[2])
+			}
+			fmt.Printf("  all handed to Parse: %s\n  files on disk:        %s\n", decodeDump(parts[0]), decodeDump(parts[len(parts)-1]))
+			if w2, err := wireOf(tcase{Files: pickFiles(orig.Files, splitInts(fs[2]))}); err == nil {
+				if sr, ok := specRequest(w2, parts[len(parts)-1]); ok {
+					sa, _ := d.Ask(sr)
+					v, why := decodeVerdict(sa)
+					fmt.Printf("  spec on the files-on-disk result: %s (%s)\n", v, why)
+				}
+			}
+			bad = true
+		}
+	}
 	for k, x := range g {
 		fmt.Printf("go run %d (load order %v): %s\n", k, tc.order(k), decodeDump(x))
 		if x != g[0] || strings.HasPrefix(x, "crash") {
